@@ -8,6 +8,7 @@ import (
 	"math"
 	"math/big"
 	"strconv"
+	"strings"
 	"testing"
 
 	sdcpb "github.com/sdcio/sdc-protos/sdcpb"
@@ -121,6 +122,27 @@ func TestVerifReplayValues(t *testing.T) {
 		}
 	}
 	fmt.Printf("REPLAY-CASES fn=%s n=%d\n", fnStr, m)
+	// inbound decimal64: string and JSON forms convert to the value they denote (digits * 10^-precision), never panic
+	vrDecimalInbound()
+	// ConvertString with schema patterns, including XSD-only syntax that Go cannot compile: an error, never a panic
+	{
+		fnS := "utils.ConvertString"
+		k := 0
+		for _, pat := range []string{"[0-9]+", `[\i-[:]][\c-[:]]*`, `\p{IsBasicLatin}+`, "(", ""} {
+			for _, val := range []string{"", "abc", "123"} {
+				k++
+				func() {
+					defer func() {
+						if r := recover(); r != nil {
+							fmt.Printf("REPLAY-FAIL fn=%s clause=panic input=pattern=%q,value=%q panic=%v\n", fnS, pat, val, r)
+						}
+					}()
+					ConvertString(val, &sdcpb.SchemaLeafType{Type: "string", Patterns: []*sdcpb.SchemaPattern{{Pattern: pat}}})
+				}()
+			}
+		}
+		fmt.Printf("REPLAY-CASES fn=%s n=%d\n", fnS, k)
+	}
 	// ToGNMITypedValue: every set kind has a gNMI rendering
 	fnG := "utils.ToGNMITypedValue"
 	g := 0
@@ -139,4 +161,77 @@ func TestVerifReplayValues(t *testing.T) {
 		}
 	}
 	fmt.Printf("REPLAY-CASES fn=%s n=%d\n", fnG, g)
+}
+
+func vrDecimalInbound() {
+	lt := &sdcpb.SchemaLeafType{Type: "decimal64", TypeName: "decimal64"}
+	type conv struct {
+		fn string
+		f  func(v string) (*sdcpb.TypedValue, error)
+	}
+	convs := []conv{
+		{"utils.convertStringToTv", func(v string) (*sdcpb.TypedValue, error) { return convertStringToTv(lt, v, 0) }},
+		{"utils.Convert", func(v string) (*sdcpb.TypedValue, error) { return Convert(v, lt) }},
+		{"utils.ConvertJsonValueToTv", func(v string) (*sdcpb.TypedValue, error) { return ConvertJsonValueToTv(v, lt) }},
+	}
+	values := []string{"0", "5", "-5", "1.25", "-1.25", "-0.5", "0.05", "-0.000000000000000001", "9223372036854775807", "-9223372036854775808", "922337203685477580.7", ".5", "1.", "", "abc", "1.2.3", "--1", "1e3", " 7 "}
+	for _, c := range convs {
+		n := 0
+		for _, v := range values {
+			n++
+			want, valid := new(big.Rat).SetString(strings.TrimSpace(v))
+			if strings.ContainsAny(v, "eE/") {
+				valid = false
+			}
+			func() {
+				defer func() {
+					if r := recover(); r != nil {
+						fmt.Printf("REPLAY-FAIL fn=%s clause=panic input=decimal64 from %q panic=%v\n", c.fn, v, r)
+					}
+				}()
+				tv, err := c.f(v)
+				if err != nil {
+					if valid {
+						fmt.Printf("REPLAY-FAIL fn=%s clause=decimal_denotes_the_input input=decimal64 from %q why=refused: %v\n", c.fn, v, err)
+					}
+					return
+				}
+				d := tv.GetDecimalVal()
+				if d == nil {
+					fmt.Printf("REPLAY-FAIL fn=%s clause=decimal_denotes_the_input input=decimal64 from %q why=typed value %v carries no decimal\n", c.fn, v, tv)
+					return
+				}
+				got := new(big.Rat).SetFrac(big.NewInt(d.Digits), new(big.Int).Exp(big.NewInt(10), big.NewInt(int64(d.Precision)), nil))
+				if !valid || got.Cmp(want) != 0 {
+					fmt.Printf("REPLAY-FAIL fn=%s clause=decimal_denotes_the_input input=decimal64 from %q why=converted to digits=%d precision=%d (= %s)\n", c.fn, v, d.Digits, d.Precision, got.FloatString(20))
+					return
+				}
+				// and it can be rendered again
+				_ = TypedValueToString(tv)
+			}()
+		}
+		fmt.Printf("REPLAY-CASES fn=%s n=%d\n", c.fn, n)
+	}
+	// JSON documents carry decimal64 as a number as well
+	fnJ := "utils.ConvertJsonValueToTv"
+	m := 0
+	for _, d := range []any{1.5, -0.25, float64(3), 3, nil, true, []any{}, map[string]any{}} {
+		m++
+		func() {
+			defer func() {
+				if r := recover(); r != nil {
+					fmt.Printf("REPLAY-FAIL fn=%s clause=panic input=decimal64 from JSON %T(%v) panic=%v\n", fnJ, d, d, r)
+				}
+			}()
+			tv, err := ConvertJsonValueToTv(d, lt)
+			if f, ok := d.(float64); ok && err == nil {
+				dv := tv.GetDecimalVal()
+				got := new(big.Rat).SetFrac(big.NewInt(dv.GetDigits()), new(big.Int).Exp(big.NewInt(10), big.NewInt(int64(dv.GetPrecision())), nil))
+				if want := new(big.Rat).SetFloat64(f); dv == nil || got.Cmp(want) != 0 {
+					fmt.Printf("REPLAY-FAIL fn=%s clause=decimal_denotes_the_input input=decimal64 from JSON number %v why=converted to %v\n", fnJ, f, tv)
+				}
+			}
+		}()
+	}
+	fmt.Printf("REPLAY-CASES fn=%s n=%d\n", fnJ, m)
 }
